@@ -517,6 +517,41 @@ func c19AllocsDiff(want, got apiext.DeviceAllocations) string {
 	return ""
 }
 
+// c19EarlyAllocs (ext9) builds an allocation on the pod's node that DIFFERS from the pod's own one: what the pod's
+// device-allocated annotation said before the update event that carries its final allocation.  Half of the time
+// the pod's own allocation moved to the next minor of each type (GPU minor 0 -> minor 1), else (or when that
+// changes nothing) one half GPU on a random minor.  No VFs, known minors and resource names only.
+func c19EarlyAllocs(rx *vRand, inv *c19Inventory, p *c19PodDef) apiext.DeviceAllocations {
+	own := p.allocs()
+	if own != nil && rx.Bool() {
+		early := p.allocs()
+		for t, list := range early {
+			cnt := inv.counts[p.node][c19TypeIndex(t)]
+			for _, a := range list {
+				a.Extension = nil
+				if cnt >= 2 && int(a.Minor) < cnt {
+					a.Minor = int32((int(a.Minor) + 1) % cnt)
+				}
+			}
+		}
+		if c19AllocsDiff(own, early) != "" {
+			return early
+		}
+	}
+	if inv.counts[p.node][0] == 0 {
+		return nil
+	}
+	for _, amt := range []int64{50, 25} {
+		early := apiext.DeviceAllocations{schedulingv1alpha1.GPU: {{Minor: int32(rx.Intn(inv.counts[p.node][0])), Resources: corev1.ResourceList{
+			apiext.ResourceGPUCore:        *resource.NewQuantity(amt, resource.DecimalSI),
+			apiext.ResourceGPUMemoryRatio: *resource.NewQuantity(amt, resource.DecimalSI)}}}}
+		if own == nil || c19AllocsDiff(own, early) != "" {
+			return early
+		}
+	}
+	return nil
+}
+
 // c19Persist produces "what the API server holds" for a pod: the pod bound to its node, running,
 // annotated by the real SetDeviceAllocations iff it has an allocation; and checks the codec.
 func c19Persist(h *vHarness, p *c19PodDef) *corev1.Pod {
@@ -1009,6 +1044,7 @@ func TestVerifC19Dev(t *testing.T) {
 		if r == nil {
 			continue
 		}
+		rx := vNewRand(h.Seed^0xC19E9, uint64(idx)) // ext9: side stream, leaves the draws of the main stream as they were
 
 		// 1. inventory
 		inv := &c19Inventory{nNodes: r.Range(1, 2), totals: map[[3]int][3]int64{}}
@@ -1163,6 +1199,7 @@ func TestVerifC19Dev(t *testing.T) {
 			switch kind {
 			case 0:
 				var target int
+				isDup := false
 				// allocateVF never hands out a VF that is recorded as allocated: a pod whose VFs overlap
 				// those of a present pod cannot have been scheduled now
 				var absentOK []int
@@ -1183,6 +1220,7 @@ func TestVerifC19Dev(t *testing.T) {
 				if len(absentOK) == 0 || (len(present) > 0 && r.Chance(1, 6)) {
 					target = present[r.Intn(len(present))]
 					h.Tag("dup-add")
+					isDup = true
 				} else {
 					target = absentOK[r.Intn(len(absentOK))]
 					_, norm, dm := pods[target].vfHeld()
@@ -1224,8 +1262,30 @@ func TestVerifC19Dev(t *testing.T) {
 					})
 				} else {
 					obj = c19Persist(h, p)
+					// ext9: ~1/5 of the first adds of a pod arrive as TWO informer events: the pod is first seen bound
+					// and Pending (or phase "") carrying an EARLIER device-allocated annotation (other minor / other
+					// amounts), then ONE update event changes BOTH status.phase (-> Running) and the annotation (-> the
+					// pod's allocation).  updatePod must give back what the old object held and record the new one, so
+					// the net effect is the plain add the model op describes (the early allocation carries no VFs).
+					var first *corev1.Pod
+					if early := c19EarlyAllocs(rx, inv, p); !isDup && early != nil && rx.Chance(1, 5) {
+						h.Tag("add:early-alloc+phase-change-update")
+						first = p.base.DeepCopy()
+						if err := apiext.SetDeviceAllocations(first, early); err != nil {
+							h.Fail("C19:dev-codec-roundtrip", "pod %d: SetDeviceAllocations failed on the early allocation", p.id)
+						}
+						first.Spec.NodeName = c19NodeName(p.node)
+						first.Status.Phase = corev1.PodPending
+						if rx.Chance(1, 3) {
+							first.Status.Phase = ""
+						}
+						via = 3
+					}
 					panicked = live == nil || h.Guard(func() {
 						switch via {
+						case 3:
+							live.onPodAdd(first.DeepCopy())
+							live.onPodUpdate(first.DeepCopy(), obj.DeepCopy())
 						case 0:
 							cacheUsed(p, true)
 						case 1:
@@ -1432,6 +1492,7 @@ func TestVerifC19Dev(t *testing.T) {
 				}
 				return false
 			})
+			liveStale := false
 			for _, k := range keys {
 				var tot int64
 				if tv, ok := inv.totals[[3]int{k[0], k[1], k[2]}]; ok {
@@ -1446,6 +1507,14 @@ func TestVerifC19Dev(t *testing.T) {
 					h.Fail("C19:dev-taken-considered-free", "node %d type %d minor %d dim %d: survivors hold %d of %d, rebuilt cache has used %d free %d",
 						k[0], k[1], k[2], k[3], exp, tot, fresh1.used[k], fresh1.free[k])
 					break
+				}
+				// ext9: the same clause for the LIVE cache at the cut ("ledger >= sum of the allocations the final
+				// objects carry"): a share the annotation of a surviving pod names must not be free in the cache of
+				// the scheduler that keeps running either (e.g. after an update event that changed the annotation)
+				if !liveSnap.panicked && !liveStale && (liveSnap.used[k] < exp || liveSnap.free[k] > maxFree) {
+					liveStale = true
+					h.Fail("C19:dev-live-taken-considered-free", "node %d type %d minor %d dim %d: the final objects hold %d of %d, the live cache has used %d free %d",
+						k[0], k[1], k[2], k[3], exp, tot, liveSnap.used[k], liveSnap.free[k])
 				}
 			}
 		}
@@ -1486,10 +1555,12 @@ func TestVerifC19Dev(t *testing.T) {
 		"(1-3 types, 1-3 minors, partial/full/zero shares, rare duplicate or unknown minors, rare oversubscription, ~1/8 pods without allocation, " +
 		"RDMA VFs drawn from a pool of 4 bus ids per (node, minor) so that VFs are reused after a delete but never held by two present pods, rare duplicate bus id), " +
 		"a live history of 3-12 add/del/upd ops through updateCacheUsed and the pod informer handlers (duplicate adds, deletes of absent pods, " +
-		"delete events through ResourceEventHandlerFuncs.OnDelete ~40% as DeletedFinalStateUnknown by value, rare degenerate tombstones that must be ignored), " +
+		"delete events through ResourceEventHandlerFuncs.OnDelete ~40% as DeletedFinalStateUnknown by value, rare degenerate tombstones that must be ignored; " +
+		"ext9: ~1/5 of the first adds of a pod = add of the bound Pending / phase-less pod with an EARLIER allocation annotation (next minor or other GPU share) " +
+		"then ONE update event changing both phase (-> Running) and the annotation), " +
 		"~1/4 of the cases with Reservation holders whose add / update / delete (2/5 tombstones) / Available->Succeeded|Failed update / inactive add go through " +
 		"NewReservationToPodEventHandler(podHandler, IsObjValidActiveReservation) as registerPodEventHandler builds it (to the model the reserve pod is a pod), " +
 		"then two shuffled replays of the surviving annotated pods (duplicate adds, same-allocation updates, update-before-add, rare stale delete of a gone pod) into fresh caches; " +
-		"oracle: annotation codec round trip, rebuilt == live (ledger and VFs), nothing held is free / no held VF unrecorded, replay order irrelevant, VF-theorem hypotheses hold. " +
+		"oracle: annotation codec round trip, rebuilt == live (ledger and VFs), nothing held is free in the rebuilt AND (ext9) in the live cache / no held VF unrecorded, replay order irrelevant, VF-theorem hypotheses hold. " +
 		"non-trivial = at least two survivors hold an item on the same (node,type,minor) or the survivors together cover at least two device types")
 }
